@@ -1,7 +1,8 @@
 //go:build verif
 
 // Conformance harness for specs/ChainTypes.tla (C14), dot/types part: headers with every digest item
-// kind, BABE pre-digests, GRANDPA votes, bodies.  The expected bytes come from the TLA+ layouts
+// kind, BABE pre-digests, BABE and GRANDPA consensus digests (next epoch / on-disabled / next config;
+// scheduled / forced change, on-disabled, pause, resume), GRANDPA votes, bodies.  The expected bytes come from the TLA+ layouts
 // (an encoder independent of pkg/scale); the header hash is the resolved BLAKE2b-256 token.
 package types
 
@@ -25,6 +26,7 @@ type vcCase struct {
 	Res struct {
 		Enc  VB `json:"enc"`
 		Hash VB `json:"hash"`
+		Item VB `json:"item"`
 	} `json:"res"`
 }
 
@@ -267,6 +269,117 @@ func TestVerifChainTypes(t *testing.T) {
 					// and through the pre-runtime digest wrapper
 					if prd, err := toPreRuntimeDigest(val); err != nil || !bytes.Equal(prd.Data, exp) || prd.ConsensusEngineID != BabeEngineID {
 						fail("ToPreRuntimeDigest", vHex(exp), fmt.Sprint(prd, err), "C14/babepre/to-pre-runtime")
+					}
+				case "babecons", "grandpacons":
+					var it vcItem
+					if err := json.Unmarshal(c.O.V, &it); err != nil {
+						panic("VERIF-INFRA consensus digest")
+					}
+					res.Case(c.O.Ty, string(c.O.V))
+					ty := c.O.Ty
+					auths := func(raw json.RawMessage) (b []AuthorityRaw, g []GrandpaAuthoritiesRaw) {
+						for _, x := range vcList(raw) {
+							f := vcList(x)
+							var k [32]byte
+							copy(k[:], vcBytes(f[0]))
+							b = append(b, AuthorityRaw{Key: k, Weight: vcUint(f[1])})
+							g = append(g, GrandpaAuthoritiesRaw{Key: k, ID: vcUint(f[1])})
+						}
+						return
+					}
+					var val any
+					var enc []byte
+					var err error
+					var decode func() (any, error)
+					var engine ConsensusEngineID
+					if ty == "babecons" {
+						engine = BabeEngineID
+						switch it.I {
+						case 1:
+							f := vcList(it.V)
+							a, _ := auths(f[0])
+							ned := NextEpochData{Authorities: a}
+							copy(ned.Randomness[:], vcBytes(f[1]))
+							val = ned
+						case 2:
+							val = BABEOnDisabled{ID: uint32(vcUint(it.V))}
+						case 3:
+							var ver vcItem
+							if err := json.Unmarshal(it.V, &ver); err != nil || ver.I != 1 {
+								panic("VERIF-INFRA next config version")
+							}
+							f := vcList(ver.V)
+							var slots vcItem
+							if err := json.Unmarshal(f[2], &slots); err != nil {
+								panic("VERIF-INFRA allowed slots")
+							}
+							v := NewVersionedNextConfigData()
+							if err := v.SetValue(NextConfigDataV1{C1: vcUint(f[0]), C2: vcUint(f[1]), SecondarySlots: byte(slots.I)}); err != nil {
+								panic("VERIF-INFRA next config SetValue: " + err.Error())
+							}
+							val = v
+						}
+						d := NewBabeConsensusDigest()
+						if err := d.SetValue(val); err != nil {
+							panic("VERIF-INFRA babe consensus SetValue: " + err.Error())
+						}
+						enc, err = scale.Marshal(d)
+						decode = func() (any, error) {
+							back := NewBabeConsensusDigest()
+							if err := scale.Unmarshal(exp, &back); err != nil {
+								return nil, err
+							}
+							return back.Value()
+						}
+					} else {
+						engine = GrandpaEngineID
+						switch it.I {
+						case 1:
+							f := vcList(it.V)
+							_, g := auths(f[0])
+							val = GrandpaScheduledChange{Auths: g, Delay: uint32(vcUint(f[1]))}
+						case 2:
+							f := vcList(it.V)
+							_, g := auths(f[1])
+							val = GrandpaForcedChange{BestFinalizedBlock: uint32(vcUint(f[0])), Auths: g, Delay: uint32(vcUint(f[2]))}
+						case 3:
+							val = GrandpaOnDisabled{ID: vcUint(it.V)}
+						case 4:
+							val = GrandpaPause{Delay: uint32(vcUint(it.V))}
+						case 5:
+							val = GrandpaResume{Delay: uint32(vcUint(it.V))}
+						}
+						d := NewGrandpaConsensusDigest()
+						if err := d.SetValue(val); err != nil {
+							panic("VERIF-INFRA grandpa consensus SetValue: " + err.Error())
+						}
+						enc, err = scale.Marshal(d)
+						decode = func() (any, error) {
+							back := NewGrandpaConsensusDigest()
+							if err := scale.Unmarshal(exp, &back); err != nil {
+								return nil, err
+							}
+							return back.Value()
+						}
+					}
+					kind := fmt.Sprintf("%s/variant-%d", ty, it.I)
+					cmpBytes("Marshal("+kind+")", enc, err, "C14/"+kind+"/encode")
+					res.Cmp()
+					got, err := decode()
+					if err != nil {
+						fail("Unmarshal("+kind+")", fmt.Sprintf("%T%+v", val, val), "error: "+err.Error(), "C14/"+kind+"/decode-error")
+					} else if fmt.Sprintf("%T%+v", got, got) != fmt.Sprintf("%T%+v", val, val) {
+						fail("Unmarshal("+kind+")", fmt.Sprintf("%T%+v", val, val), fmt.Sprintf("%T%+v", got, got), "C14/"+kind+"/decode-value")
+					}
+					// the log travels as the payload of a Consensus digest item under the engine's id
+					dg := NewDigest()
+					if err := dg.Add(ConsensusDigest{ConsensusEngineID: engine, Data: exp}); err != nil {
+						panic("VERIF-INFRA digest add: " + err.Error())
+					}
+					ienc, err := scale.Marshal(dg[0])
+					res.Cmp()
+					if wantItem := c.Res.Item.Bytes(); err != nil || !bytes.Equal(ienc, wantItem) {
+						fail("Marshal(Consensus digest item carrying "+kind+")", vHex(wantItem), vHex(ienc)+fmt.Sprint(err), "C14/"+kind+"/as-digest-item")
 					}
 				case "vote", "signedvote":
 					res.Case(c.O.Ty, string(c.O.V))
